@@ -288,6 +288,39 @@ def unifiedBundle (h : Heap) (c : Nat) : Heap × Except Err Nat :=
 def bundlesGet (bs : List (QName × Nat)) (q : QName) : Option Nat :=
   (bs.find? (fun p => p.1.same q)).map (·.2)
 
+/-- Python truthiness of the identifier argument (`if not identifier`) -/
+def idFalsy : NameArg → Bool
+  | .nil => true
+  | .str s => s == ""
+  | .qn _ => false
+
+/-- `identifier = bundle.identifier` when none was given -/
+def defaultBundleId (h1 : Heap) (b' : Nat) : NameArg → NameArg
+  | .nil => (match (h1.cont b').id with | some q => .qn q | none => .nil)
+  | x => x
+
+/-- `bundle._namespaces.parent = self._namespaces` -/
+def linkParent (h1 : Heap) (d b' : Nat) : Heap :=
+  { h1 with mgrs := h1.mgrs.setIfInBounds (h1.cont b').mgr { h1.mgrCell (h1.cont b').mgr with parent := some (h1.cont d).mgr } }
+
+/-- the three container writes that register bundle `b'` under `q` in document `d` -/
+def registerBundle (h3 : Heap) (d b' : Nat) (q : QName) : Heap × Option Err :=
+  let h4 := h3.setCont b' { h3.cont b' with id := some q }
+  let dk := h4.cont d
+  if (bundlesGet dk.bundles q).isSome then (h4, some errProv)
+  else
+    let h5 := h4.setCont d { dk with bundles := dk.bundles ++ [(q, b')] }
+    (h5.setCont b' { h5.cont b' with doc := some d }, none)
+
+/-- the second half of `add_bundle`, once the bundle object `b'` is fixed: link its manager to the document's, resolve the
+    identifier in its scope, rewrite its identifier, register it in the document -/
+def attachBundle (h1 : Heap) (d b' : Nat) (idArg : NameArg) : Heap × Option Err :=
+  if idFalsy (h1.defaultBundleId b' idArg) then (h1, some errProv)
+  else
+    match (h1.linkParent d b').validName b' (h1.defaultBundleId b' idArg) with
+    | (h3, none) => (h3, some errProv)
+    | (h3, some q) => h3.registerBundle d b' q
+
 /-- `add_bundle(bundle, identifier)`. `nsOrder` = iteration order of `bundle.namespaces` (a set) as
     observed on the implementation, used only when `bundle` is a document. -/
 def addBundle (h : Heap) (d : Nat) (b : Nat) (idArg : NameArg) (nsOrder : List Ns) :
@@ -304,27 +337,7 @@ def addBundle (h : Heap) (d : Nat) (b : Nat) (idArg : NameArg) (nsOrder : List N
     else (h, .ok b)
   match step1 with
   | (h1, .error e) => (h1, some e)
-  | (h1, .ok b') =>
-    let bk' := h1.cont b'
-    let idArg' : NameArg := match idArg with
-      | .nil => (match bk'.id with | some q => .qn q | none => .nil)
-      | x => x
-    let falsy := match idArg' with | .nil => true | .str s => s == "" | .qn _ => false
-    if falsy then (h1, some errProv)
-    else
-      -- bundle._namespaces.parent = self._namespaces
-      let mi := bk'.mgr
-      let h2 := { h1 with mgrs := h1.mgrs.setIfInBounds mi { h1.mgrCell mi with parent := some (h1.cont d).mgr } }
-      let (h3, vid) := h2.validName b' idArg'
-      match vid with
-      | none => (h3, some errProv)
-      | some q =>
-        let h4 := h3.setCont b' { h3.cont b' with id := some q }
-        let dk := h4.cont d
-        if (bundlesGet dk.bundles q).isSome then (h4, some errProv)
-        else
-          let h5 := h4.setCont d { dk with bundles := dk.bundles ++ [(q, b')] }
-          (h5.setCont b' { h5.cont b' with doc := some d }, none)
+  | (h1, .ok b') => h1.attachBundle d b' idArg
 
 /-- `ProvDocument.bundle(identifier)` -/
 def bundle (h : Heap) (d : Nat) (idArg : NameArg) : Heap × Except Err Nat :=
@@ -342,12 +355,7 @@ def bundle (h : Heap) (d : Nat) (idArg : NameArg) : Heap × Except Err Nat :=
         (h2.setCont d { h2.cont d with bundles := (h2.cont d).bundles ++ [(q, nb)] }, .ok nb)
 
 /-- `ProvDocument.unified()` (after the fix: own manager seeded from the source) -/
-def unifiedDoc (h : Heap) (d : Nat) : Heap × Except Err Nat :=
-  let m := h.mgrOf d
-  let (h1, nd) := h.allocCont true none m.reg.values none
-  let h2 := match m.dflt with
-    | some dn => h1.setDefault nd dn.uri
-    | none => h1
+def unifiedInto (h2 : Heap) (d nd : Nat) : Heap × Except Err Nat :=
   match h2.unifiedRecords d with
   | (h3, .error e) => (h3, .error e)
   | (h3, .ok rs) =>
@@ -366,6 +374,16 @@ def unifiedDoc (h : Heap) (d : Nat) : Heap × Except Err Nat :=
       match go h4 (h4.cont d).bundles with
       | (h5, none) => (h5, .ok nd)
       | (h5, some e) => (h5, .error e)
+
+/-- the new document starts with the source's default namespace -/
+def copyDefault (h1 : Heap) (nd : Nat) : Option Ns → Heap
+  | some dn => h1.setDefault nd dn.uri
+  | none => h1
+
+def unifiedDoc (h : Heap) (d : Nat) : Heap × Except Err Nat :=
+  let m := h.mgrOf d
+  let (h1, nd) := h.allocCont true none m.reg.values none
+  (h1.copyDefault nd m.dflt).unifiedInto d nd
 
 /-- `ProvDocument.flattened()` -/
 def flattened (h : Heap) (d : Nat) : Heap × Except Err Nat :=
